@@ -41,6 +41,8 @@ var bookThemes = []string{
 	"f2f4 e7e5 f4e5 d7d6 e5d6 f8d6 g1h3 a7a6 e2e4 a6a5 f1e2 a5a4 h3g5 a4a3 g5f7 e8f7 e1g1 f7e8 d2d4 b8c6", // castling that gives check (O-O+)
 }
 
+var twinCounter int
+
 func genBookGames(rng *Rng, n int) []bookGame {
 	w := NewWalker(rng)
 	var games []bookGame
@@ -49,8 +51,34 @@ func genBookGames(rng *Rng, n int) []bookGame {
 	// that makes a move only look ambiguous, en passant, both castlings, promotions with and
 	// without capture, file/rank disambiguation)
 	themeOff := rng.Intn(len(bookThemes)) // collections are small: start somewhere else in the list every time
+	var themeLines []string
+	if n >= 2 {
+		// twin games: the same placement reached by a double step (en-passant capture possible) and by two single
+		// steps (no such right): two positions, two book entries; the files rotate from collection to collection
+		twinCounter++
+		files := []int{twinCounter % 8}
+		if n >= 4 {
+			files = []int{twinCounter % 4, twinCounter%4 + 4}
+		}
+		for _, f := range files {
+			g := f + 1
+			if f == 7 {
+				g = 6
+			}
+			tempo := "a7a6"
+			if f <= 1 || g <= 1 {
+				tempo = "h7h6"
+			}
+			fl, gl := string(rune('a'+f)), string(rune('a'+g))
+			themeLines = append(themeLines,
+				gl+"2"+gl+"4 "+tempo+" "+gl+"4"+gl+"5 "+fl+"7"+fl+"5 "+gl+"5"+fl+"6",
+				gl+"2"+gl+"3 "+fl+"7"+fl+"6 "+gl+"3"+gl+"4 "+tempo+" "+gl+"4"+gl+"5 "+fl+"6"+fl+"5 g1f3")
+		}
+	}
 	for ti := range bookThemes {
-		line := bookThemes[(themeOff+ti)%len(bookThemes)]
+		themeLines = append(themeLines, bookThemes[(themeOff+ti)%len(bookThemes)])
+	}
+	for _, line := range themeLines {
 		if len(games) >= n {
 			break
 		}
@@ -280,16 +308,31 @@ func renderPgn(games []bookGame, rng *Rng) string {
 
 type bookSnapshot map[uint64]int // key -> counter
 
+// bookKeyCollision is set by expectedBook when two different positions of the games (different placement, side,
+// rights or en-passant field) carry the same key: the book would merge them into one entry
+var bookKeyCollision string
+
 func expectedBook(games []bookGame) bookSnapshot {
 	exp := bookSnapshot{}
+	cores := map[uint64]string{}
+	bookKeyCollision = ""
+	note := func(p *position.Position) {
+		k := uint64(p.ZobristKey())
+		exp[k]++
+		c := strings.Join(strings.Fields(p.StringFen())[:4], " ")
+		if o, ok := cores[k]; ok && o != c && bookKeyCollision == "" {
+			bookKeyCollision = o + "  and  " + c
+		}
+		cores[k] = c
+	}
 	root := position.NewPosition()
 	exp[uint64(root.ZobristKey())] = 0
 	for _, g := range games {
 		p := position.NewPosition()
-		exp[uint64(p.ZobristKey())]++
+		note(p)
 		for _, m := range g.moves {
 			p.DoMove(m)
-			exp[uint64(p.ZobristKey())]++
+			note(p)
 		}
 	}
 	return exp
@@ -371,6 +414,14 @@ func c19Monitor(args []string) int {
 	for c := 0; c < n; c++ {
 		games := genBookGames(rng, 3+rng.Intn(40))
 		exp := expectedBook(games)
+		if bookKeyCollision != "" {
+			var gl []string
+			for _, g := range games {
+				gl = append(gl, strings.Join(g.uci, " "))
+			}
+			rep.Violate("book-positions-or-counts-differ", map[string]interface{}{"collection": c, "seed": seed, "games": gl},
+				"two different positions of the games carry one key and would share one book entry: "+bookKeyCollision)
+		}
 		files := map[string]string{"simple.txt": renderSimple(games, rng), "san.txt": renderSan(games), "games.pgn": renderPgn(games, rng)}
 		formats := map[string]openingbook.BookFormat{"simple.txt": openingbook.Simple, "san.txt": openingbook.San, "games.pgn": openingbook.Pgn}
 		for f, content := range files {
